@@ -30,13 +30,18 @@ CLAIMS = {
              "datafit values, are fresh, exclude the intercept from the penalty, and both "
              "halves of the (w, Xw) pair are stored together; every prox call site is the "
              "prox-gradient step with one step size 1/L_k indexed at the coordinate it reads "
-             "and writes; the three backtracking line searches follow one template. Does not "
+             "and writes; the three backtracking line searches follow one template; in the "
+             "iterative-reweighting loop alpha * weights of the inner weighted-L1 penalty is, "
+             "after each update, the slope in |w_j| of the outer penalty's own value() at the "
+             "current coefficients (negative, positive and zero coefficients; every penalty "
+             "offering `derivative`), i.e. the inner problem is a tangent majoriser. Does not "
              "decide monotonicity of the numerical objective.",
-        design_ref="DESIGN.md §3.1 R-GUARD/R-STEP/R-LS, §4 C03",
+        design_ref="DESIGN.md §3.1 R-GUARD/R-STEP/R-LS/R-REWEIGHT, §4 C03",
         note="Assumes prox exactness and validity of L_k (C07/C09). Backtracking "
              "exhaustion fallback (`else: pass`) is reported as a note.",
         technique="dominator / reaching-definition queries on the solver CFGs, AST term "
-                  "comparison under substitution",
+                  "comparison under substitution; region lifting of the reweighting update "
+                  "compared with the derivative of the lifted penalty value",
     ),
     "C04": dict(
         text="Decides that feasibility is preserved by construction at every stopping "
